@@ -37,6 +37,8 @@ After(S, x) == {p \in S : p[1] >= x}
 Clause(e) ==
   IF e.rel = "realign" THEN   \* C11 padding clause: the same file content at another aligned stream position keeps most of its chunks
        (IF On("P:PaddingAlignsFiles") /\ 2 * e.reused < e.total THEN "P:PaddingAlignsFiles" ELSE "ok")
+  ELSE IF e.rel = "starts" THEN   \* C11 padding clause, stated directly: a file of a real snapshot starts on the alignment grid of the chunker input
+       (IF On("P:PaddingAlignsFiles") /\ (e.offset < 0 \/ e.offset % 4 # 0) THEN "P:PaddingAlignsFiles" ELSE "ok")
   ELSE IF ~StartsOk(e) THEN "C:harness-prefix-sums"
   ELSE IF On("P:Lossless") /\ (~e.lossless \/ SumCuts(e) # e.total) THEN "P:Lossless"
   ELSE IF On("P:NonEmpty") /\ (\E i \in DOMAIN e.cuts : e.cuts[i] <= 0) THEN "P:NonEmpty"
